@@ -1717,6 +1717,8 @@ func registerModels() {
 		"fmt.Errorf":                               ext۰fmt۰Errorf,
 		"fmt.Sprint":                               ext۰fmt۰Sprint,
 		"fmt.Fprintf":                              ext۰fmt۰Fprintf,
+		// environment stub: writing to a process stream succeeds and has no effect
+		"(*os.File).Write": func(fr *frame, args []value) value { return tuple{len(args[1].([]value)), iface{}} },
 		"(*fmt.wrapError).Error":                   ext۰fmt۰wrapError۰Error,
 		"(*fmt.wrapError).Unwrap":                  ext۰fmt۰wrapError۰Unwrap,
 		"(reflect.Kind).String":                    ext۰reflect۰Kind۰String,
